@@ -2254,3 +2254,25 @@ def rule_engine_args_agree(ctx):
                 "the fall-back path is treated differently from one read by the reference engine directly" % (
                     ", ".join("%s=%s" % d for d in diff) or "positional %s" % (pos,)))
     ctx.floor("DATA.ENGINE-ARGS", 1)
+
+
+def rule_sniff_pure(ctx):
+    """DATA.ARGS-READONLY: the sniffer and the two data engines modify none of the objects they are handed apart from the file
+    position.  LASFile.read() passes the same substitution lists first to the sniffer (column count) and then to the engine
+    (tokens); a callee that edits such a list in place makes the count and the tokens disagree for exactly the inputs the
+    edit concerns (the array is then reshaped into displaced, shorter curves)."""
+    from sa.effects import get_effects, fmt_path
+    p = ctx.p
+    ea = get_effects(p)
+    n = 0
+    for q in ("reader.inspect_data_section", "reader.read_data_section_iterative_normal_engine",
+              "reader.read_data_section_iterative_numpy_engine"):
+        fi = p.func(q)
+        n += 1
+        bad = [e for e in ea.summary(fi) if e.path[0][0] == "param" and e.path[0][1] not in ("file_obj", "self")]
+        ctx.check(not bad, "DATA.ARGS-READONLY", q + "#params", fi, bad[0].node if bad else fi.node,
+                  "%s leaves the lists and options it is given unchanged" % fi.name,
+                  bad and ("%s modifies its argument in place (%s %s at `%s`): read() hands the same object to the sniffer and to "
+                           "the engine, so the column count and the tokens are no longer computed under the same substitutions"
+                           % (fi.name, bad[0].kind, fmt_path(bad[0].path), unparse(bad[0].node)[:60])))
+    ctx.floor("DATA.ARGS-READONLY", 3)
